@@ -200,7 +200,7 @@ def transl2(x, y=None):
     elif base.ismatrix(x, (3, 3)):
         return x[:2, 2]
     else:
-        ValueError('bad argument')
+        raise ValueError('bad argument')
 
 
 def ishom2(T, check=False):
@@ -575,7 +575,7 @@ def trinterp2(start, end, s=None):
 
         return base.rt2tr(rot2(th), pr)
     else:
-        return ValueError('Argument must be SO(2) or SE(2)')
+        raise ValueError('Argument must be SO(2) or SE(2)')
 
 
 def trprint2(T, label=None, file=sys.stdout, fmt='{:8.2g}', unit='deg'):
